@@ -4,6 +4,7 @@ import (
 	"context"
 	"fmt"
 	"math"
+	"regexp"
 	"runtime/debug"
 	"strings"
 	"time"
@@ -327,7 +328,12 @@ func runC01(c *core.Ctx) {
 				if !gen.ControlWellFormed([]*gen.N{n}) {
 					return true // break/continue/return outside their construct: no documented semantics (left to C07)
 				}
+				// (a new line does not end a statement in grol: a line starting with ++ -- + - ^ ( [ would continue the
+				// previous one)
 				src := gen.Render([]*gen.N{n}, gen.Policy{StmtSep: "\n"})
+				if reLineStartsWithOperator.MatchString(src) {
+					return true // that line continues the previous statement: another program than the tree rendered
+				}
 				return do("wild", "a = 3; b = [1, 2]\n"+src)
 			})
 		}
@@ -336,6 +342,8 @@ func runC01(c *core.Ctx) {
 	c.P.States = c.P.Traces
 	c.P.Bound = strings.Join(bounds, "; ") + "; each in the plain (no registers, cache off) and default configuration"
 }
+
+var reLineStartsWithOperator = regexp.MustCompile(`\n\s*(\+|-|\^|\(|\[)`)
 
 var c01StmtAlphabet = []string{
 	"v = v + 1", "v := 5", "w = v", "w := v * 2", "v++", "v--", "++v", "p = p + 1", "p := 9",
@@ -377,7 +385,7 @@ var c01StmtAlphabet = []string{
 	"w = {\"k\": v, \"j\": 2}", "del(w.k); println(w)", "println(del(w[\"j\"]), w)", "w.z = 3; println(w)", "func dk() { del(w.k); w.y = 1 }; dk(); println(w)",
 	// errors raised while building a literal or an argument list abort the statement
 	"w = {\"a\": 1 / 0}; println(\"after\", w)", "w = {1 / 0: 1}; println(\"after\", w)", "w = [v, 1 / 0]; println(\"after\", w)", "w = h(v, 1 / 0); println(\"after\", w)",
-	"w = {\"a\": {\"b\": [error(\"deep\")]}}; println(\"after\", w)", "w = len([1 % 0]); println(\"after\")",
+	"w = {\"a\": {\"b\": [error(\"deep\")]}}; println(\"after\", w)", "w = len([1 % 0]); println(\"after\")", "w = {}; w[1 / 0] = 5; println(\"after\", w)", "w = [1]; w[0] = 1 / 0; println(\"after\", w)", "w = [1, 2][1 / 0:]; println(\"after\")",
 }
 
 func c01Stmt(c *core.Ctx, do func(fam string, inputs ...string) bool) bool {
@@ -421,9 +429,9 @@ func c01Stmt(c *core.Ctx, do func(fam string, inputs ...string) bool) bool {
 
 func init() {
 	core.Register(&core.Check{
-		ID:    "C01",
-		Level: "model_checking",
-		Rule: "programs enumerated exhaustively from typed families (G-val: operators x boundary operand pairs; G-expr: unparenthesised operator chains x typed leaves, testing precedence/associativity through an independent parser; G-index: containers of size 0..10 x index/slice/assignment forms x indices; G-stmt: skeletons x all short sequences of a statement alphabet covering every loop form, control statement, scoping form, closures, recursion, variadics; G-syn: all small syntax trees, mostly ill-typed). Each program runs on an independent reference evaluator (own tokenizer, own precedence-climbing parser, immutable values) and on the implementation in the plain configuration (registers off, cache off) and the default one; printed text, final value (type-tagged structural dump) and error/no-error are compared. Programs the reference does not model are counted as unsupported and not compared. Non-trivial = compared; distinct by program text.",
+		ID:          "C01",
+		Level:       "model_checking",
+		Rule:        "programs enumerated exhaustively from typed families (G-val: operators x boundary operand pairs; G-expr: unparenthesised operator chains x typed leaves, testing precedence/associativity through an independent parser; G-index: containers of size 0..10 x index/slice/assignment forms x indices; G-stmt: skeletons x all short sequences of a statement alphabet covering every loop form, control statement, scoping form, closures, recursion, variadics; G-syn: all small syntax trees, mostly ill-typed). Each program runs on an independent reference evaluator (own tokenizer, own precedence-climbing parser, immutable values) and on the implementation in the plain configuration (registers off, cache off) and the default one; printed text, final value (type-tagged structural dump) and error/no-error are compared. Programs the reference does not model are counted as unsupported and not compared. Non-trivial = compared; distinct by program text.",
 		Assume:      []string{"reference semantics of DESIGN.md §5 (internal/ref)", "error message wording is never compared"},
 		QuickCap:    100 * time.Second,
 		ThoroughCap: 20 * time.Minute,
